@@ -268,6 +268,8 @@ def bounded(check, tier):
             continue
         ch = chr(cp)
         b = ch.encode("utf-8")
+        if b in EV.KEYMAP_PREFIXES:
+            continue        # ESC + 'z' is itself a named key: an ambiguous stream, outside the statement's quantifier
         s.evaluations += 1
         got, err = drive(b + b"z", "utf-8", EV.Keynames.CURTSIES)
         exp_first = EV.CURTSIES_NAMES.get(b, ch)
